@@ -437,3 +437,72 @@ fn b_cursor_huge(ty: u8, meth: u8, cols: usize, skip: usize, items: usize, n: us
     }
     end_reached!();
 }
+
+// ------------------------------------------------------------------------------------------
+// FlattenExact twin: a cells() iterator brought into a front/middle/back state, one call, then drained.
+
+/// meth: 0 next, 1 next_back, 2 nth, 3 nth_back, 4 size_hint
+/// draws: cols, middle rows, cells left in the open front row (0 = no open front row), cells left in the
+/// open back row (0 = none), n
+pub fn b_flatten(meth: u8) {
+    let c = nd::usize_();
+    let mid = nd::usize_();
+    let f = nd::usize_();
+    let b = nd::usize_();
+    let n = nd::usize_();
+    nd::assume(c >= 1 && c <= 64 && mid <= 16 && f < c && b < c);
+    let rows = mid + (f > 0) as usize + (b > 0) as usize;
+    if rows == 0 {
+        end_reached!();
+        return;
+    }
+    let t: TooDee<u32> = TooDee::from_vec(c, rows, (0..(c * rows) as u32).collect());
+    let mut it = t.cells();
+    let mut lo = 0usize;
+    let mut hi = c * rows;
+    if f > 0 {
+        for _ in 0..(c - f) {
+            it.next();
+            lo += 1;
+        }
+    }
+    if b > 0 {
+        for _ in 0..(c - b) {
+            it.next_back();
+            hi -= 1;
+        }
+    }
+    let len = hi - lo;
+    match meth {
+        0 | 2 => {
+            let k = if meth == 0 { 0 } else { n };
+            let got = if meth == 0 { it.next() } else { it.nth(n) };
+            if k < len {
+                assert!(got == Some(&((lo + k) as u32)), "ORACLE: cells().nth/next returned another cell");
+                lo += k + 1;
+            } else {
+                assert!(got.is_none(), "ORACLE: cells().nth/next returned a cell past the end");
+                lo = hi;
+            }
+        }
+        1 | 3 => {
+            let k = if meth == 1 { 0 } else { n };
+            let got = if meth == 1 { it.next_back() } else { it.nth_back(n) };
+            if k < len {
+                assert!(got == Some(&((hi - 1 - k) as u32)), "ORACLE: cells().nth_back/next_back returned another cell");
+                hi -= k + 1;
+            } else {
+                assert!(got.is_none(), "ORACLE: cells().nth_back/next_back returned a cell past the end");
+                hi = lo;
+            }
+        }
+        _ => {
+            assert!(it.size_hint() == (len, Some(len)), "ORACLE: cells().size_hint differs from the ideal sequence");
+        }
+    }
+    assert!(it.len() == hi - lo, "ORACLE: cells().len() after the call differs from the ideal sequence");
+    let rest: Vec<u32> = it.copied().collect();
+    let want: Vec<u32> = (lo as u32..hi as u32).collect();
+    assert!(rest == want, "ORACLE: the cells remaining after the call are not the ideal remaining sequence");
+    end_reached!();
+}
